@@ -109,6 +109,21 @@ fn main() {
                 emit(&mut out, util::guarded(|| taskfam::gen_read(seed, id)));
             }
         }
+        "task-mut" => {
+            for id in first..first + count {
+                emit(&mut out, util::guarded(|| taskfam::gen_mut(seed, id)));
+            }
+        }
+        "task-depmap" => {
+            for id in first..first + count {
+                emit(&mut out, util::guarded(|| taskfam::gen_depmap(seed, id)));
+            }
+        }
+        "task-expire" => {
+            for id in first..first + count {
+                emit(&mut out, util::guarded(|| taskfam::gen_expire(seed, id)));
+            }
+        }
         "storage-legacy" => {
             writeln!(out, "{}", legacy::run(seed, count.max(40))).unwrap();
         }
